@@ -719,7 +719,7 @@ func (fe *FnExec) doReturn(fr *frame, st *State, x *ssa.Return) {
 	if fr.con == nil || fr.inlined {
 		return
 	}
-	for _, en := range fr.con.Ensures {
+	for _, en := range append(append([]Clause(nil), fr.con.Ensures...), fr.con.Checks...) {
 		ctx := fe.ctxFor(fr, st)
 		ctx.old = fr.entry
 		ctx.bindResults(fr.fn.Signature, rv)
